@@ -43,16 +43,29 @@ def sync_side_check(r):
     got = asyncio.run(both())
     if got != [("B", "x"), ("A", "y")]:
         r.violation("concurrently awaited value_async calls mixed up their results", {"engine": "concrete", "got": repr(got)})
-    r.coverage["concrete_value_sync_calls"] = n + 2
+    # history: one-shot queries are built, executed and thrown away (their AST objects die), then a query with an empty wrapper is executed
+    c = DS("C")
+    want = ast.dump(c.Select("lambda e: e.y").Where("lambda y: y > 0").query_ast)
+    rounds = 300
+    for i in range(rounds):
+        a.Select("lambda e: e.x").Where("lambda x: x > %d" % i).value(title="p")
+        c.Select("lambda e: e.y").value(title="q")
+        del calls[:]
+        c.MetaData({}).Select("lambda e: e.y").Where("lambda y: y > 0").value(title="r")
+        if len(calls) != 1 or calls[0][1] != want:
+            r.violation("after %d build/execute/discard rounds the executor received another query than the stream's (minus empty MetaData)" % i,
+                        {"engine": "concrete", "received": calls[0][1][:400] if calls else None, "expected": want[:400]})
+            break
+    r.coverage["concrete_value_sync_calls"] = n + 2 + 3 * rounds
 
 
 def run(tier):
     if tier == "quick":
         jobs = [chrun.SJob("vlib.sh.c12", "c12", base.parts(16), 500,
-                           what="1..3 concurrently awaited value_async() executions chosen among 4 prepared streams on 2 datasets (with empty MetaData, Where, "
+                           what="1..3 concurrently awaited value_async() executions chosen among 4 prepared streams on 2 datasets (with stacked empty MetaData wrappers, a user function named MetaData inside a lambda, QMetaData, Where, "
                                 "AsAwkwardArray terminal); symbolic: which streams, completion order of the executors (coroutines stepped by hand, executor "
-                                "suspended on a gate), which execution raises, override executor on the first execution, the title (any str); oracle: executor "
-                                "log empty after building and before awaiting, exactly one call per execution on the right executor with the stream's query minus "
+                                "suspended on a gate), which execution raises, override executor (a falsy callable object) on the first execution, the title (any str); oracle: executor "
+                                "log empty after building and before awaiting, exactly one call per execution on the right dataset OBJECT / override with the stream's query minus "
                                 "empty MetaData wrappers and the very title object, result/exception delivered to the right awaiter, find_EventDataset returns the "
                                 "root node and rejects 0/2 roots")]
     else:
